@@ -3,7 +3,7 @@ PROP = "C10"
 
 
 def run(tier):
-    ck = simprops.run_prop(PROP, tier, n_quick=5000, n_thorough=150000, runner_name='metamorphic', with_failures=False,
+    ck = simprops.run_prop(PROP, tier, n_quick=5000, n_thorough=60000, runner_name='metamorphic', with_failures=False,
                            features=dict(deps=True, hidden_generated=True))
     return ck.finish()
 
